@@ -50,7 +50,8 @@ def space(tier, seed):
                     [A_('ARRAY_AGG', F('a', 2)), ('alias', F('a', 1), 'grp', 'as')]):
             cases.append(({'kind': 'select', 'items': lst, 'where': None, 'order': None, 'distinct': None, 'top': None, 'group': [F('a', 1)], 'join': None}, hdr, False))
         for ex in ([F('a', 1)], [F('a', 3), F('a', 1)]) + (([('named', 'a', n2, 'attr'), F('a', 3)],) if hdr else ()):
-            cases.append(({'kind': 'select', 'items': [('star', None)], 'except_cols': ex, 'where': None, 'order': None, 'distinct': None, 'top': None, 'group': None, 'join': None}, hdr, False))
+            for d_, top_ in modes:
+                cases.append(({'kind': 'select', 'items': [('star', None)], 'except_cols': ex, 'where': None, 'order': None, 'distinct': d_, 'top': top_, 'group': None, 'join': None}, hdr, False))
         cases.append(({'kind': 'update', 'assign': [(F('a', 1), ('lit', 'z'))], 'where': None, 'join': None}, hdr, False))
         cases.append(({'kind': 'update', 'assign': [(F('a', 2), F('b', 2))], 'where': None, 'join': {'type': 'LEFT JOIN', 'keys': [(F('a', 1), F('b', 1))]}}, hdr, True))
     tables = [[[k, m, 'c'], [m, k, 'd']], [[k, k, k]], [[m, 'w', 'c'], [m, 'w', 'c'], [k, 'v', 'e']]]
